@@ -610,8 +610,9 @@ pub fn gen_spec(seed: u64, focus: &str, tier: &str) -> RunSpec {
                         *sem = SEM_DEFAULT;
                     }
                     // KF-MSNM-GEN-NURSERY: nursery GCs sweep the mark-sweep non-moving space.
+                    // KF-MSNM-CONCIMMIX: no allocate-as-live in the mark-sweep non-moving space.
                     if cfg!(feature = "var_c")
-                        && matches!(cfg.plan.as_str(), "GenCopy" | "GenImmix")
+                        && matches!(cfg.plan.as_str(), "GenCopy" | "GenImmix" | "ConcurrentImmix")
                         && *sem == SEM_NONMOVING
                     {
                         *sem = SEM_DEFAULT;
